@@ -49,40 +49,82 @@ class State(object):
 
 
 def build_state(ctx):
+    import importlib
+    import sys
     st = State(ctx)
     for sec in (sec_pairs, sec_triples, sec_copies, sec_signed):
         sec(st)
+    # coverage extension (props/c09_cov.py): construction routes, near-miss contents, cross-kind and subclass pairs,
+    # compare-mutate-compare sequences, copies of folded fingerprints, copy chains
+    cov = importlib.import_module('props.c09_cov')
+    me = sys.modules[__name__]
+    for sec in cov.sections():
+        sec(st, me)
     return st
 
 
-def compare_pair(st, tag, a, b, oa, ob):
-    """all four forms in both orders against the model; then the property on the implementation."""
+def compare_pair(st, tag, a, b, oa, ob, forms=None, extra=None):
+    """the forms (default: all four) in both orders against the model; then the property on the implementation."""
     res = {}
     for x, y, ox, oy, order in ((a, b, oa, ob, 'ab'), (b, a, ob, oa, 'ba')):
         for name, f, mf in FORMS:
+            if forms is not None and name not in forms:
+                continue
             r = _b(attempt(lambda: f(x, y)))
             res[(order, name)] = r
             m = '%s %s %s' % (mf, lit(ox), lit(oy))
-            st.add(tag + '/' + name, 'result_eqb Bool.eqb (%s) %s' % (m, _blit(r)),
-                   {'form': name, 'left': fpgen.obs_json(ox), 'right': fpgen.obs_json(oy), 'impl': r[1]}, m,
+            pl = {'form': name, 'left': fpgen.obs_json(ox), 'right': fpgen.obs_json(oy), 'impl': r[1]}
+            if extra:
+                pl.update(extra)
+            st.add(tag + '/' + name, 'result_eqb Bool.eqb (%s) %s' % (m, _blit(r)), pl, m,
                    bool(ox['idx']) and bool(oy['idx']))
     if xobs(a) != oa or xobs(b) != ob:
         st.prop_fail('eq:operand-mutated', 'comparison changed an operand', {'a': fpgen.obs_json(oa), 'b': fpgen.obs_json(ob)})
     if oa['kind'] == ob['kind']:
         expect = content(oa) == content(ob)
         pl = {'a': fpgen.obs_json(oa), 'b': fpgen.obs_json(ob), 'results': {'%s %s' % k: v[1] for k, v in res.items()}}
+        if extra:
+            pl.update(extra)
         for order in ('ab', 'ba'):
             for name in ('==', '__eq__'):
-                r = res[(order, name)]
+                r = res.get((order, name))
+                if r is None:
+                    continue
                 if r[0] != 'ok':
                     st.prop_fail('eq:raises-same-kind', '%s raised %s for two fingerprints of one kind' % (name, r[1]), pl)
                 elif r[1] != expect:
                     st.prop_fail('eq:not-content-based', '%s gave %s, content-equality is %s' % (name, r[1], expect), pl)
             for name in ('!=', '__ne__'):
-                r = res[(order, name)]
-                if r != ('ok', not expect):
+                r = res.get((order, name))
+                if r is not None and r != ('ok', not expect):
                     st.prop_fail('eq:ne-not-negation', '%s gave %r, expected %s' % (name, r[1], not expect), pl)
     return res
+
+
+def triple_check(st, tag, a, b, c, extra=None):
+    """a == a, a == b, b == c, a == c, c == a against the model; reflexivity, transitivity, symmetry on the implementation."""
+    oa, ob, oc = xobs(a), xobs(b), xobs(c)
+    rs = {}
+    for (x, y, ox, oy, nm) in ((a, a, oa, oa, 'aa'), (a, b, oa, ob, 'ab'), (b, c, ob, oc, 'bc'), (a, c, oa, oc, 'ac'), (c, a, oc, oa, 'ca')):
+        r = _b(attempt(lambda: x == y))
+        rs[nm] = r
+        m = 'py_eq %s %s' % (lit(ox), lit(oy))
+        pl = {'left': fpgen.obs_json(ox), 'right': fpgen.obs_json(oy), 'impl': r[1]}
+        if extra:
+            pl.update(extra)
+        st.add(tag + '/' + nm, 'result_eqb Bool.eqb (%s) %s' % (m, _blit(r)), pl, m, bool(ox['idx']))
+    pl = {'a': fpgen.obs_json(oa), 'b': fpgen.obs_json(ob), 'c': fpgen.obs_json(oc), 'results': {k: v[1] for k, v in rs.items()}}
+    if extra:
+        pl.update(extra)
+    if rs['aa'] != ('ok', True):
+        st.prop_fail('eq:not-reflexive', 'a == a gave %r' % (rs['aa'],), pl)
+    if rs['ab'] == ('ok', True) and rs['bc'] == ('ok', True) and rs['ac'] != ('ok', True):
+        st.prop_fail('eq:not-transitive', 'a == b and b == c but a == c gave %r' % (rs['ac'],), pl)
+    if oa['kind'] == oc['kind'] and rs['ac'] != rs['ca']:
+        st.prop_fail('eq:not-symmetric', 'a == c gave %r, c == a gave %r' % (rs['ac'], rs['ca']), pl)
+    if content(oa) == content(ob) == content(oc) and not (rs['ab'] == rs['bc'] == rs['ac'] == ('ok', True)):
+        st.prop_fail('eq:not-content-based', 'three fingerprints of one content are not all equal: %r' % (rs,), pl)
+    return rs
 
 
 def sec_pairs(st):
@@ -351,7 +393,16 @@ def run(ctx):
                             'from_fingerprint / deepcopy / pickle / conversion to another kind and back, followed by mutation of one side (props, name, '
                             'level, counts dict in place and through the setter, index buffer in place, fold cache, nested cached folds) and re-observation '
                             'of the other side incl. its fold caches; before copying 0-3 other views (bool/float/default sparse vectors, RDKit, pickle) are taken from the original and '
-                            'afterwards the copy\'s sparse vectors are compared with those of a freshly built equal fingerprint.  Non-trivial: both operands non-empty (copies: non-empty); distinct by full input.')
+                            'afterwards the copy\'s sparse vectors are compared with those of a freshly built equal fingerprint.  '
+                            'Extension (props/c09_cov.py): pairs/triples whose members are built by different construction routes (dict insertion order, numpy keys/values/level/bits, '
+                            'duplicated and unsorted index lists, other index dtypes, positional constructors, dense/CSR vectors, bit strings, RDKit, conversion, pickle, deepcopy, '
+                            'fold of a longer fingerprint, operators) and are equal or differ in one respect (index moved by 1 / 2^8 / 2^16 / 2^31, two indices moved in opposite directions, '
+                            'two counts swapped, count + 1 / 2^16 / 2^32, float one ulp or within one integer, level + 2^8 / 2^32 / 2^40 / None, length doubled); every pair of kinds on small '
+                            'contents, length-0 fingerprints, user subclasses; compare - mutate via setters or in place - compare again on the same objects; copies of folded fingerprints '
+                            '(parent link, unfolding map), copy chains, re-copy after mutation, conversion and back from route-built sources.  Database: near relatives built by from_array '
+                            '(one value, one cell, explicit zero, rows rotated, rows and names rotated, row boundary moved, one name, level, length, props dropped).  '
+                            'Non-trivial: both operands non-empty (copies: non-empty); distinct by full input.')
+    st.dist.update({'db/' + k: v for k, v in ctx.coverage.pop('input_distribution_db', {}).items()})
     ctx.coverage['input_distribution'] = st.dist
     ctx.assumptions += [
         'dict equality of the counts, np.array_equal, copy/pickle machinery behave as modelled; exercised by the correspondence only',
